@@ -31,7 +31,7 @@ def install() -> None:
     import random
     import selectors
     import socket
-    import ssl      # noqa: F401
+    import ssl
     import threading
     import time
     import uuid
@@ -77,6 +77,10 @@ def install() -> None:
     multiprocessing.Event = mp.SimEvent         # type: ignore[assignment]
     multiprocessing.reduction.send_handle = mp.sim_send_handle    # type: ignore[assignment]
     multiprocessing.reduction.recv_handle = mp.sim_recv_handle    # type: ignore[assignment]
+
+    # TLS: real OpenSSL over simulated sockets -----------------------------------------
+    from . import tls
+    ssl.SSLContext.sslsocket_class = tls.SimTLSSocket       # type: ignore[assignment]
 
     # asyncio ------------------------------------------------------------------
     asyncio.set_event_loop_policy(loop.SimPolicy())
